@@ -66,7 +66,8 @@ def plan(tier):
     return [("simfs", {}, 40000, 50), ("realkill", {"real": 1}, 1600, 10)]
 
 
-KEYS = ["k1", "k2", "dir/k3", "dir/sub/k4", "other/k5"]
+# keys are file names: "k1.tmp" / "k1~" style siblings are ordinary, distinct keys
+KEYS = ["k1", "k2", "dir/k3", "dir/sub/k4", "other/k5", "k1.tmp", "dir/k3.tmp", "k2.bak"]
 ROOT = "/kv"
 
 
@@ -82,6 +83,8 @@ def gen_history(ch):
         k = keys[ch.draw(len(keys), "which")]
         if ch.chance(1, 8, "big"):
             lit = big_literal(ch)
+        elif nsets <= 2 and ch.chance(1, 24, "huge"):
+            lit = "!140000"          # pickles to > 1 MiB: larger than the store's cache limit
         else:
             lit = gen_literal(ch, allow_undef=True)
         hist.append((k, lit))
@@ -105,13 +108,37 @@ def scenario(ch, cfg):
     sim_cache(store.cache, w)
     stats = w.stats
 
+    refused = set()
+
     def writer():
         for i, ((k, lit), v) in enumerate(zip(hist, vals)):
             fs.mark("inv", i)
-            store.set(k, v)
+            try:
+                store.set(k, v)
+            except MemoryError:
+                # a value larger than the cache limit may be refused (specified, see C16): then nothing was promised
+                refused.add(i)
+                stats["probe_oversize_refused"] += 1
+                fs.mark("refused", i)
+                continue
             fs.mark("ret", i)
 
+    # optionally a concurrent reader of the same keys (a get whose load is in flight while the set arrives)
+    reader_keys = [hist[ch.draw(len(hist), "rk")][0] for _ in range(ch.draw(4, "nreads"))] if ch.draw(3, "reader") == 0 else []
+
+    def reader():
+        for k in reader_keys:
+            try:
+                store.get(k)
+            except SystemExit:
+                raise
+            except BaseException:   # noqa - a get racing with the first set of its key may legitimately find nothing
+                pass
+            stats["probe_concurrent_get"] += 1
+
     a = w.spawn("writer", writer)
+    if reader_keys:
+        w.spawn("reader", reader)
     reason = w.run()
     violations = []
     if not a.done:
@@ -140,6 +167,8 @@ def scenario(ch, cfg):
                     inprog = op[2]
                 elif op[1] == "ret":
                     returned[hist[op[2]][0]] = op[2]
+                    inprog = None
+                elif op[1] == "refused":
                     inprog = None
         if inprog is not None:
             stats["probe_crash_inside_set"] += 1
@@ -235,6 +264,18 @@ class _RealOS:
     def getcwd(self):
         return os.getcwd()
 
+    def replace(self, src, dst):
+        self._ctl.boundary("rename")
+        return os.replace(src, dst)
+
+    rename = replace
+
+    def remove(self, path):
+        self._ctl.boundary("unlink")
+        return os.remove(path)
+
+    unlink = remove
+
 
 def _real_open(ctl):
     def _open(path, mode="r", *a, **k):
@@ -257,7 +298,11 @@ def _run_child(root, hist, vals, kill_at, progress_path):
     fd = os.open(progress_path, os.O_WRONLY | os.O_CREAT | os.O_APPEND)
     for i, ((k, lit), v) in enumerate(zip(hist, vals)):
         os.write(fd, b"I%d\n" % i)
-        store.set(k, v)
+        try:
+            store.set(k, v)
+        except MemoryError:
+            os.write(fd, b"X%d\n" % i)
+            continue
         os.write(fd, b"R%d\n" % i)
     os.write(fd, b"N%d\n" % ctl.n)
     os._exit(0)
@@ -304,6 +349,8 @@ def scenario_real(ch, cfg):
                     inprog = int(ln[1:])
                 elif ln[0] == "R":
                     returned[hist[int(ln[1:])][0]] = int(ln[1:])
+                    inprog = None
+                elif ln[0] == "X":
                     inprog = None
                 elif ln[0] == "N":
                     total_ops = int(ln[1:])
